@@ -140,6 +140,10 @@ pub struct CaseA {
 pub fn run_case_a(case: &CaseA, seed: u64, l: &mut Local) {
     l.evaluations += 1;
     let mut w = World::new(seed);
+    // (a third of the daemons live on a port of their own, as `new_with_port` allows: their peers listen there)
+    if seed % 3 == 0 {
+        w.port = 5454;
+    }
     w.set_stepping(Stepping::Lazy);
     let h = w.add_host(scen::single_dual());
     let t0 = w.now();
